@@ -55,7 +55,9 @@ func chSamples(corpus string) map[string][]byte {
 		"har":  by["har"], "geo": by["geojson"], "gltf": by["gltf1"],
 		"html": []byte(`<!DOCTYPE html><html><head><meta charset="iso-8859-2"><title>t</title></head><body>x</body></html>`),
 		"xml":  []byte(`<?xml version="1.0" encoding="koi8-r"?><note>x</note>`),
-		"aaf":  aaf, "msi": by["msi"], "zip": by["zip"], "png": by["png"], "qt": by["mov"], "mqv": by["mqv"],
+		"aaf":  aaf, "msi": by["msi"], "zip": by["zip"], "png": by["png"], "mqv": by["mqv"],
+		"qt":  []byte("\x00\x00\x00\x14ftypqt  \x00\x00\x00\x00qt  \x00\x00\x00\x08wide"),
+		"mp4": []byte("\x00\x00\x00\x14ftypisom\x00\x00\x02\x00isomiso2"),
 	}
 }
 
